@@ -91,7 +91,11 @@ func checkC08(c *Ctx) {
 			n := perFn["hpke.unmarshalContext escape-addr"] + perFn["hpke.unmarshalContext assign"] + perFn["hpke.unmarshalContext copy"] + perFn["hpke.unmarshalContext element"]
 			what := "hpke.unmarshalContext: field " + field + " is bound exactly once, by the reader"
 			if n == 1 && perFn["hpke.unmarshalContext escape-addr"] == 1 {
-				c.ok("C08.writers", what, "one write (through the cryptobyte reader)", "")
+				w := "one write (through the cryptobyte reader)"
+				if k := perFn["hpke.unmarshalContext assign-copy-of-itself"]; k > 0 {
+					w += fmt.Sprintf(", then re-bound %d time(s) to a private copy of its own contents", k)
+				}
+				c.ok("C08.writers", what, w, "")
 			} else {
 				c.bad("C08.writers", what, fmt.Sprintf("%d writes in unmarshalContext (decoded value may be overwritten)", n), "")
 			}
